@@ -457,14 +457,15 @@ func (h *harness) walkTie(c Case, o childOutcome) {
 	if err != nil || !a.ret {
 		return
 	}
+	// additional rules (the cost rule) only run on documents the standard rules accept
 	want := int64(0)
-	if a.walk {
+	if a.walk && o.Res.Errs == 0 {
 		want = a.visits
 	}
 	ok := o.Res.Visits == want
 	what := ""
 	if !ok {
-		what = fmt.Sprintf("%s n=%d: the cost walk visited %d fields/spreads, the step model says %d", c.Family, c.N, o.Res.Visits, want)
+		what = fmt.Sprintf("%s n=%d: the cost walk visited %d fields/spreads, the step model says %d (validation errors: %d)", c.Family, c.N, o.Res.Visits, want, o.Res.Errs)
 	}
 	h.run.Oblige("cost-walk step correspondence(hook VerifCostVisits = Lean walk model)", "correspondence", 1, ok, what)
 	if !ok {
@@ -635,7 +636,7 @@ func main() {
 		run.Note("%s", l)
 	}
 	// (C) random fragment graphs: hook counter = step model, visits within the bound
-	nRand := run.Scale(400, 6000)
+	nRand := run.Scale(3000, 40000)
 	for i := 0; i < nRand; i++ {
 		r := run.Rand.Fork()
 		g := &docGen{r: r, nfrag: r.Range(0, 6), budget: r.Range(3, 40), cyclic: r.Chance(1, 5)}
@@ -649,10 +650,34 @@ func main() {
 	run.Finish(h.model)
 }
 
-// walkCase: in-process ParseAndValidate + cost rule on a small generated document.
+// runRule: the exported validator.ValidateCost rule called directly on a parsed document (valid or
+// not: the abort paths of the walk are part of the step model), with the hook counter.
+func runRule(src string, s *graphql.Schema) (r childResult, parsed bool) {
+	doc, perrs := parser.ParseDocument([]byte(src))
+	if doc == nil || len(perrs) > 0 {
+		return r, false
+	}
+	r.Sels = countSels(doc)
+	var actual int
+	rule := validator.ValidateCost("", nil, -1, &actual, graphql.FieldCost{Resolver: 1})
+	ti := validator.NewTypeInfo(doc, s, nil)
+	before := atomic.LoadInt64(&validator.VerifCostVisits)
+	errs := rule(doc, s, nil, ti)
+	r.Visits = atomic.LoadInt64(&validator.VerifCostVisits) - before
+	r.Errs = len(errs)
+	if len(errs) > 0 {
+		r.First = errs[0].Message
+	}
+	return r, true
+}
+
+// walkCase: a small generated document through (1) the cost rule alone, compared with the step
+// model including its abort paths, and (2) graphql.ParseAndValidate + cost rule, where the walk
+// must run exactly on the documents the standard rules accept.
 func (h *harness) walkCase(c Case) {
 	run := h.run
-	var r childResult
+	var r, full childResult
+	parsed := false
 	panicked := ""
 	func() {
 		defer func() {
@@ -660,38 +685,46 @@ func (h *harness) walkCase(c Case) {
 				panicked = fmt.Sprint(p)
 			}
 		}()
-		r = runWork(c, c.Src, h.schema)
+		r, parsed = runRule(c.Src, h.schema)
+		full = runWork(c, c.Src, h.schema)
 	}()
 	run.Case(c.Src, r.Sels >= 5)
 	run.Count("walk")
 	if panicked != "" {
-		run.Violate("crash", "ParseAndValidate panicked: "+panicked, "", false, c)
+		run.Violate("crash", "the cost rule / ParseAndValidate panicked: "+panicked, "", false, c)
 		return
 	}
-	if r.Accepted {
+	if full.Accepted {
 		run.Count("walk:valid")
 	} else {
-		run.Count("walk:invalid:" + strings.SplitN(r.First, ":", 2)[0])
+		run.Count("walk:invalid:" + strings.SplitN(full.First, ":", 2)[0])
+	}
+	if r.Errs > 0 {
+		run.Count("walk:rule-error:" + r.First)
 	}
 	if h.model == nil {
 		return
 	}
 	a, err := h.askModel(c.Src, false)
-	if err != nil || !a.ret {
-		run.Violate("correspondence", fmt.Sprintf("generated document not accepted by the parser model: %v %s", err, a.obs), "", true, c)
+	if err != nil || !a.ret || !parsed {
+		run.Violate("correspondence", fmt.Sprintf("generated document not accepted by the parser / parser model: %v %s", err, a.obs), "", true, c)
 		return
 	}
-	want := int64(0)
+	want, wantErr := int64(0), false
 	if a.walk {
-		want = a.visits
+		want, wantErr = a.visits, a.werr
 		if a.werr {
 			run.Count("walk:model-abort")
 		}
 	}
-	ok := r.Visits == want
+	wantFull := int64(0)
+	if full.Errs == 0 {
+		wantFull = want
+	}
+	ok := r.Visits == want && (r.Errs > 0) == wantErr && full.Visits == wantFull
 	what := ""
 	if !ok {
-		what = fmt.Sprintf("the cost walk visited %d fields/spreads, the step model says %d", r.Visits, want)
+		what = fmt.Sprintf("cost rule alone: %d visits, %d errors; step model: %d visits, abort=%v; ParseAndValidate+cost: %d visits with %d validation errors (expected %d)", r.Visits, r.Errs, want, wantErr, full.Visits, full.Errs, wantFull)
 	}
 	run.Oblige("cost-walk step correspondence(hook VerifCostVisits = Lean walk model)", "correspondence", 1, ok, what)
 	if !ok {
